@@ -114,7 +114,10 @@ def run_case(case, tier):
         active["clamp"] += bool(((raw < 0) & (pop[:-1] > 0)).any())
     # conservation over the whole run: head entering meat herds by transfer = head leaving dairy herds (retired + male calves)
     tin_all = sum((L(a, "transfer_population") for a in animals if a.animal_function != "milk"), np.zeros(N))
-    tout_all = sum((L(a, "retiring_milk_animals") + L(a, "transfer_births") for a in animals if a.animal_function == "milk"), np.zeros(N))
+    # (a dairy herd whose species has no meat herd in the run - India's cattle, left out on purpose - has nowhere to transfer to
+    # and is not part of the clause)
+    meat_species = {a.animal_species for a in animals if a.animal_function != "milk"}
+    tout_all = sum((L(a, "retiring_milk_animals") + L(a, "transfer_births") for a in animals if a.animal_function == "milk" and a.animal_species in meat_species), np.zeros(N))
     if np.shape(tin_all) == np.shape(tout_all) and np.abs(tin_all - tout_all).max() > 1e-9 * max(1.0, float(np.max(tout_all))):
         m = int(np.abs(tin_all - tout_all).argmax())
         bad("transfer_not_conserved", "month %d: %.4f head entered meat herds by transfer, %.4f left dairy herds" % (m, tin_all[m], tout_all[m]), month=m)
